@@ -195,7 +195,7 @@ class Agent(dbus.service.Object):
             self.stop()
             return True
 
-        for hdl in self._handlers:
+        for hdl in tuple(self._handlers):
             hdl.terminate()
         self._logger.info('Waiting on sessions to terminate')
         return False
@@ -211,7 +211,7 @@ class Agent(dbus.service.Object):
             except:
                 pass
 
-        for hdl in self._handlers:
+        for hdl in tuple(self._handlers):
             hdl.close()
 
         if tuple(self.locations):
